@@ -1031,11 +1031,11 @@ func init() {
 	register(&property{
 		Meta: propertyMeta{
 			ID:          "C15",
-			Explanation: "Only the second sentence of the property (the BuildURL->Match round trip is not decidable in this family): (C15-INDEX) every API that names a route maintains the name index with last-writer-wins: stores to Route.name occur only in constructors (the route is indexed by appendRoute when registered) or paired on the same path with namedRoutes[sameName] = sameRoute (NamedTo); appendRoute writes namedRoutes[route.name] = route on every path with a non-empty name, before any return; the index is written nowhere else and never deleted from; GetRoute is a plain lookup and BuildURL resolves through it; ToURL builds from the route's own registered pattern. (C15-MEMO) ToURL re-uses a caller-supplied builder through Path(route.path).Build(...): the builder type holds no state derived from its own settings that can go stale — every store into a field of an existing BuildRequestURL whose value depends on a load of another field (placeholders parsed from the path, ...) is either recomputed/invalidated in every function that assigns that other field, or is a keyed memo whose key is re-validated on every path to every use; a virtual type with a stale memo is analysed on every run and must be reported.",
+			Explanation: "Only the second sentence of the property (the BuildURL->Match round trip is not decidable in this family): (C15-INDEX) every API that names a route maintains the name index with last-writer-wins: stores to Route.name occur only in constructors (the route is indexed by appendRoute when registered) or paired on the same path with namedRoutes[sameName] = sameRoute (NamedTo); appendRoute writes namedRoutes[route.name] = route on every path with a non-empty name, before any return; the index is written nowhere else and never deleted from; GetRoute is a plain lookup and BuildURL resolves through it; ToURL builds from the route's own registered pattern. (C15-MEMO) ToURL re-uses a caller-supplied builder through Path(route.path).Build(...): the builder type holds no state derived from its own settings that can go stale — every store into a field of an existing BuildRequestURL whose value depends on a load of another field (placeholders parsed from the path, ...) is either recomputed/invalidated in every function that assigns that other field, or is a keyed memo whose key is re-validated on every path to every use; a virtual type with a stale memo is analysed on every run and must be reported. (C01-SPACE) the text ToURL hands to the builder is literal-space: it is the route's pattern field(s), and nothing that went through the regex escaping steps (quotePointChar, checkAndParseOptional) is ever stored into Route.path / Route.start / a read Route.spath or returned as the table key.",
 			NotDecided:  []string{"the substitution itself in BuildRequestURL.Build: placeholder grammar, escaping, query parameters", "that Match on the built path returns the same route and values (value-level string round trip through net/url)"},
 			Assumptions: []string{"Go map assignment overwrites (last writer wins)"},
 		},
-		Rules: []ruleFn{{"C15-INDEX", ruleC15Index}, {"C15-MEMO", ruleC15Memo}},
+		Rules: []ruleFn{{"C15-INDEX", ruleC15Index}, {"C15-MEMO", ruleC15Memo}, {"C01-SPACE", ruleC01Space}},
 	})
 	register(&property{
 		Meta: propertyMeta{
@@ -1456,4 +1456,102 @@ func mergeTpl(in []tplPiece) []tplPiece {
 		out = append(out, p)
 	}
 	return out
+}
+
+// ---------------------------------------------------------------------------
+// C01-SPACE — literal space and regex space do not mix.
+//
+// parseParamRoute turns the pattern into regular-expression text in steps
+// (quotePointChar escapes '.', checkAndParseOptional rewrites '[' ']', the
+// variable replacer inserts '(' regex ')'). Text that went through one of these
+// steps is regex-space: it may only end up in the compiled Route.regex. The
+// fields that are compared with request paths or used to build URLs are
+// literal-space: Route.path (static key, ToURL), Route.start and the returned
+// first segment (pre-filters compared with the request path), and Route.spath
+// when anything reads it. A regex-space value stored into a literal-space sink
+// makes '/v1.0/{id}' look for the literal text '/v1\.0/' (or builds
+// '/posts/7%5C.html').
+
+func ruleC01Space(r *Run) {
+	w := r.W
+	rule := "C01-SPACE"
+	r.Floor(rule, 3)
+	tm := newTierModel(w)
+	pf := tm.parse
+	producers := map[*ssa.Function]string{}
+	for _, nm := range []string{"quotePointChar", "checkAndParseOptional"} {
+		if f := w.FnOpt("rux", nm); f != nil {
+			producers[f] = nm
+		}
+	}
+	r.Exists(rule, "regex-space producers", pf.Pos(), len(producers) >= 1, fmt.Sprintf("%d escaping/rewriting step(s) of the pattern-to-regex translation found", len(producers)))
+	regexSpace := func(v ssa.Value) (bool, string) {
+		why := ""
+		hit := flowsFrom(v, func(x ssa.Value) bool {
+			c, ok := x.(*ssa.Call)
+			if !ok {
+				return false
+			}
+			if sc := staticCallee(c); sc != nil {
+				if nm, isProd := producers[sc]; isProd {
+					why = nm
+					return true
+				}
+			}
+			switch calleeName(c) {
+			case "regexp.QuoteMeta":
+				why = "regexp.QuoteMeta"
+				return true
+			}
+			return false
+		})
+		return hit, why
+	}
+	spathF := w.FieldOpt("rux", "Route", "spath")
+	sinks := []*types.Var{tm.path, w.Field("rux", "Route", "start")}
+	if spathF != nil {
+		read := false
+		for _, f := range w.Funcs {
+			if f != pf && len(loadsOfField(f, spathF)) > 0 {
+				read = true
+			}
+		}
+		if read {
+			sinks = append(sinks, spathF)
+		}
+	}
+	n := 0
+	for _, f := range w.Funcs {
+		for _, fv := range sinks {
+			for i, st := range storesToField(f, fv) {
+				n++
+				hit, why := regexSpace(st.Val)
+				r.Check(rule, fmt.Sprintf("%s:store Route.%s#%d", FuncName(f), fv.Name(), i+1), w.InstrPos(st), !hit,
+					map[bool]string{true: "the stored text is literal-space (it did not pass through the regex escaping/rewriting steps)", false: "Route." + fv.Name() + " is compared with request paths / used to build URLs, but the stored text went through " + why + " (regex-space): a '.' or optional part in the pattern makes it differ from the real path"}[!hit])
+			}
+		}
+	}
+	// the first-segment key returned by parseParamRoute
+	eachInstr(pf, func(in ssa.Instruction) {
+		if ret, ok := in.(*ssa.Return); ok && len(ret.Results) == 1 {
+			n++
+			hit, why := regexSpace(ret.Results[0])
+			r.Check(rule, "(*Router).parseParamRoute:returned first segment", w.InstrPos(in), !hit,
+				map[bool]string{true: "the table key is cut from the pattern before any escaping", false: "the table key went through " + why}[!hit])
+		}
+	})
+	// ToURL builds from the route's pattern fields only
+	toURL := w.Fn("rux", "Route.ToURL")
+	pathSetter := w.Fn("rux", "BuildRequestURL.Path")
+	for i, c := range callsToFn(toURL, pathSetter) {
+		okLeaves := true
+		bad := ""
+		for _, lf := range valueLeaves(c.Common().Args[1]) {
+			if !(isLoadOfField(lf, tm.path) || (spathF != nil && isLoadOfField(lf, spathF))) {
+				okLeaves = false
+				bad = shortCanon(canon(lf))
+			}
+		}
+		r.Check(rule, fmt.Sprintf("(*Route).ToURL:Path argument#%d", i+1), w.InstrPos(c.(ssa.Instruction)), okLeaves, map[bool]string{true: "the URL is built from the route's own pattern field(s)", false: "the URL template is " + bad + ", not the route's registered pattern"}[okLeaves])
+	}
 }
